@@ -1,12 +1,400 @@
-//! Family `pixel`: C19 — pixel decoding.  (stub)
+//! Family `pixel`: C19 — pixel decoding.
+//!
+//! Case lines:
+//!   <id> px <fmt> <w> <h> <payload>        3DS texture through a single-texture CTPK (`ctpk::read`)
+//!   <id> etc <alpha> <w> <h> <payload>     `mila::decode` (ETC1 / ETC1A4)
+//!   <id> cf <ColorFormat> <payload>        `ColorFormat::decode`
+//!   <id> cfi <ColorFormat> <data> <pal>    `ColorFormat::decode_indexed`
+//!   <id> ci8 <w> <h> <palette> <image>     CI8 image + RGB5A3 palette through a single-image TPL
+//!   <id> probe <fmt> <w> <h>               payload-size probe (all-zero payload of the exact size / one byte less)
+//! Implementation line: `<id> <dev|release> ok <hex>` | `… err <Class>` | `… panic`.
 #![allow(unused)]
+use super::texc::{self, bits_per_pixel, PROFILE};
 use crate::util::*;
+use mila::*;
 
-pub fn gen(_seed: u64, _tier: &str) -> Vec<String> {
-    Vec::new()
+/// Canonical single-texture CTPK (mirrored by `Driver/Pixel.lean::singleCtpk`).
+pub fn single_ctpk(fmt: u32, w: u32, h: u32, payload: &[u8]) -> Vec<u8> {
+    let mut f = Vec::new();
+    f.extend_from_slice(&0x4B50_5443u32.to_le_bytes());
+    f.extend_from_slice(&1u16.to_le_bytes());
+    f.extend_from_slice(&1u16.to_le_bytes());
+    f.extend_from_slice(&0x44u32.to_le_bytes());
+    f.extend_from_slice(&(payload.len() as u32).to_le_bytes());
+    f.extend_from_slice(&[0u8; 16]);
+    f.extend_from_slice(&0x40u32.to_le_bytes());
+    f.extend_from_slice(&(payload.len() as u32).to_le_bytes());
+    f.extend_from_slice(&0u32.to_le_bytes());
+    f.extend_from_slice(&fmt.to_le_bytes());
+    f.extend_from_slice(&(w as u16).to_le_bytes());
+    f.extend_from_slice(&(h as u16).to_le_bytes());
+    f.extend_from_slice(&[1, 0, 0, 0]);
+    f.extend_from_slice(&[0u8; 8]);
+    f.extend_from_slice(&[0x70, 0, 0, 0]);
+    f.extend_from_slice(payload);
+    f
+}
+
+fn need(fmt: u32, w: u32, h: u32) -> usize {
+    bits_per_pixel(fmt).unwrap_or(0) * (w as usize) * (h as usize) / 8
+}
+
+struct Gen {
+    lines: Vec<String>,
+    n: usize,
+}
+impl Gen {
+    fn push(&mut self, body: String) {
+        self.lines.push(format!("c19.{:06} {}", self.n, body));
+        self.n += 1;
+    }
+}
+
+/// One ETC1 block word from its fields.
+fn etc_word(diff: bool, flip: bool, t1: u64, t2: u64, rgb1: [u64; 3], rgb2: [u64; 3], msb: u64, lsb: u64) -> u64 {
+    let mut w: u64 = 0;
+    if diff {
+        // rgb1 = 5-bit bases, rgb2 = 3-bit two's complement deltas
+        w |= (rgb1[0] & 31) << 59 | (rgb2[0] & 7) << 56;
+        w |= (rgb1[1] & 31) << 51 | (rgb2[1] & 7) << 48;
+        w |= (rgb1[2] & 31) << 43 | (rgb2[2] & 7) << 40;
+        w |= 1 << 33;
+    } else {
+        w |= (rgb1[0] & 15) << 60 | (rgb2[0] & 15) << 56;
+        w |= (rgb1[1] & 15) << 52 | (rgb2[1] & 15) << 48;
+        w |= (rgb1[2] & 15) << 44 | (rgb2[2] & 15) << 40;
+    }
+    w |= (t1 & 7) << 37 | (t2 & 7) << 34;
+    if flip {
+        w |= 1 << 32;
+    }
+    w | (msb & 0xFFFF) << 16 | (lsb & 0xFFFF)
+}
+
+fn blocks_payload(words: &[u64], alphas: Option<&[u64]>) -> Vec<u8> {
+    let mut p = Vec::new();
+    for (i, w) in words.iter().enumerate() {
+        if let Some(a) = alphas {
+            p.extend_from_slice(&a[i].to_le_bytes());
+        }
+        p.extend_from_slice(&w.to_le_bytes());
+    }
+    p
+}
+
+/// Emits `words` (count must be 4·k²/… : padded with random legal-looking blocks to fill a square of 8k×8k).
+fn emit_blocks(g: &mut Gen, rng: &mut Rng, words: &[u64], alpha: bool, via_ctpk: bool) {
+    // sizes: 32×32 holds 64 blocks, 16×16 holds 16, 8×8 holds 4
+    let mut i = 0;
+    while i < words.len() {
+        let left = words.len() - i;
+        let (side, cap) = if left >= 64 { (32, 64) } else if left >= 16 { (16, 16) } else { (8, 4) };
+        let mut chunk: Vec<u64> = words[i..(i + cap).min(words.len())].to_vec();
+        while chunk.len() < cap {
+            chunk.push(rng.next() & !(1u64 << 33)); // individual-mode filler
+        }
+        let alphas: Vec<u64> = (0..cap).map(|k| if k % 3 == 0 { 0xFEDC_BA98_7654_3210 } else { rng.next() }).collect();
+        let payload = blocks_payload(&chunk, if alpha { Some(&alphas) } else { None });
+        if via_ctpk {
+            g.push(format!("px {} {} {} {}", if alpha { 13 } else { 12 }, side, side, hex(&payload)));
+        } else {
+            g.push(format!("etc {} {} {} {}", alpha as u8, side, side, hex(&payload)));
+        }
+        i += cap;
+    }
+}
+
+pub fn gen(seed: u64, tier: &str) -> Vec<String> {
+    let thorough = tier == "thorough";
+    let mut rng = Rng::new(seed ^ 0xC19);
+    let mut g = Gen { lines: Vec::new(), n: 0 };
+    let all_sizes: [u32; 5] = [8, 16, 32, 64, 128];
+    let small: &[u32] = if thorough { &all_sizes } else { &all_sizes[..3] };
+
+    // A. every format number (0..=13 and unsupported ones) × sizes, random payloads, through ctpk::read
+    for fmt in (0u32..=15).chain([255u32, 0x1_0000]) {
+        for &w in small {
+            for &h in small {
+                if thorough && w * h > 64 * 64 && fmt != 0 && !rng.chance(1, 3) {
+                    continue;
+                }
+                g.push(format!("px {} {} {} {}", fmt, w, h, hex(&rng.bytes(need(fmt, w, h)))));
+            }
+        }
+    }
+    // B. all 65 536 values of every 16-bit format, in a per-seed random order, packed into 32×32 images;
+    //    all 256 values of the 8-bit formats
+    for fmt in [2u32, 3, 4, 5] {
+        let mut vals: Vec<u16> = (0..=65535u16).collect();
+        rng.shuffle(&mut vals);
+        for chunk in vals.chunks(1024) {
+            let mut p = Vec::with_capacity(2048);
+            for v in chunk {
+                p.extend_from_slice(&v.to_le_bytes());
+            }
+            g.push(format!("px {} 32 32 {}", fmt, hex(&p)));
+        }
+    }
+    for fmt in [6u32, 7, 8, 9] {
+        let mut vals: Vec<u8> = (0..=255u8).collect();
+        rng.shuffle(&mut vals);
+        g.push(format!("px {} 16 16 {}", fmt, hex(&vals)));
+    }
+    // RGBA8: every byte value in every channel position
+    {
+        let mut p = Vec::new();
+        for i in 0..256u32 {
+            let v = [i as u8, (i * 7 + 1) as u8, (255 - i) as u8, (i * 13 + 5) as u8];
+            p.extend_from_slice(&v);
+        }
+        g.push(format!("px 0 16 16 {}", hex(&p)));
+    }
+    // C. ETC1: all (mode, table1, table2, flip) combinations with random selectors and bases;
+    //    every legal base/delta pair in every channel; the illegal pairs; all individual bases
+    let mut words = Vec::new();
+    for diff in [false, true] {
+        for flip in [false, true] {
+            for t1 in 0..8u64 {
+                for t2 in 0..8u64 {
+                    let (rgb1, rgb2) = if diff {
+                        // legal: base + delta within 0..=31
+                        let mut b = [0u64; 3];
+                        let mut d = [0u64; 3];
+                        for c in 0..3 {
+                            loop {
+                                b[c] = rng.below(32);
+                                d[c] = rng.below(8);
+                                let dv = if d[c] < 4 { d[c] as i64 } else { d[c] as i64 - 8 };
+                                if (0..=31).contains(&(b[c] as i64 + dv)) {
+                                    break;
+                                }
+                            }
+                        }
+                        (b, d)
+                    } else {
+                        ([rng.below(16), rng.below(16), rng.below(16)], [rng.below(16), rng.below(16), rng.below(16)])
+                    };
+                    words.push(etc_word(diff, flip, t1, t2, rgb1, rgb2, rng.next(), rng.next()));
+                }
+            }
+        }
+    }
+    emit_blocks(&mut g, &mut rng, &words, false, false);
+    emit_blocks(&mut g, &mut rng, &words, true, true);
+    // every (base, delta) pair — legal and illegal — rotated through the channels; selectors cover all
+    // four values in both subblocks (msb/lsb patterns 0x0F0F.. / 0x3333..)
+    let mut legal = Vec::new();
+    let mut illegal = Vec::new();
+    for b in 0..32u64 {
+        for d in 0..8u64 {
+            let dv = if d < 4 { d as i64 } else { d as i64 - 8 };
+            let ok = (0..=31).contains(&(b as i64 + dv));
+            for rot in 0..3 {
+                let mut bb = [rng.below(28) + 4 - 4 * 0, 8, 16];
+                let mut dd = [0u64, 1, 7];
+                bb[rot] = b;
+                dd[rot] = d;
+                // keep the two other channels legal
+                for c in 0..3 {
+                    if c != rot {
+                        bb[c] = 4 + rng.below(24);
+                        dd[c] = rng.below(8);
+                    }
+                }
+                let w = etc_word(true, rng.chance(1, 2), rng.below(8), rng.below(8), bb, dd, 0x0F0F ^ (rng.next() & 0xFFFF), 0x3333 ^ (rng.next() & 0xFFFF));
+                if ok { legal.push(w) } else { illegal.push(w) }
+            }
+        }
+    }
+    emit_blocks(&mut g, &mut rng, &legal, false, true);
+    emit_blocks(&mut g, &mut rng, &legal, true, false);
+    emit_blocks(&mut g, &mut rng, &illegal, false, false);
+    emit_blocks(&mut g, &mut rng, &illegal, false, true);
+    let mut indiv = Vec::new();
+    for a in 0..16u64 {
+        for b in 0..16u64 {
+            indiv.push(etc_word(false, (a + b) % 2 == 1, a % 8, b % 8, [a, b, 15 - a], [b, 15 - b, a], 0x00FF, 0x0F0F));
+        }
+    }
+    emit_blocks(&mut g, &mut rng, &indiv, false, false);
+    // selector exhaustiveness on one block: every (msb, lsb) value at every texel, both flips, both modes
+    let mut sel = Vec::new();
+    for k in 0..16u64 {
+        for (m, l) in [(0u64, 0u64), (0, 1), (1, 0), (1, 1)] {
+            for flip in [false, true] {
+                sel.push(etc_word(k % 2 == 0, flip, 3, 6, [10, 20, 5], [1, 2, 3], m << k, l << k));
+            }
+        }
+    }
+    emit_blocks(&mut g, &mut rng, &sel, true, false);
+    // D. fully random blocks; all sizes 8…128 (the f64 tile count), rectangular included
+    for &w in &all_sizes {
+        for &h in &all_sizes {
+            for alpha in [false, true] {
+                if !thorough && alpha && w * h > 32 * 32 && !(w == 128 && h == 128) && !(w == 8 && h == 128) && !(w == 128 && h == 8) {
+                    continue;
+                }
+                let len = need(if alpha { 13 } else { 12 }, w, h);
+                g.push(format!("etc {} {} {} {}", alpha as u8, w, h, hex(&rng.bytes(len))));
+            }
+        }
+    }
+    // ETC1 outside the domain (model/code agreement only): short data, non-power-of-two sides
+    for (alpha, w, h, len) in [(0u8, 8u32, 8u32, 31usize), (1, 8, 8, 63), (0, 8, 8, 0), (0, 24, 8, 96), (0, 4, 4, 32), (0, 12, 20, 256), (1, 16, 8, 64), (0, 0, 0, 32), (0, 0, 8, 0)] {
+        g.push(format!("etc {} {} {} {}", alpha, w, h, hex(&rng.bytes(len))));
+    }
+    // E. payload-size probes: every size of the domain (and some outside) for every bpp class
+    let probe_fmts: Vec<u32> = if thorough { (0..=15).collect() } else { vec![0, 1, 2, 6, 10, 12, 13, 14] };
+    for &fmt in &probe_fmts {
+        for &w in &all_sizes {
+            for &h in &all_sizes {
+                g.push(format!("probe {} {} {}", fmt, w, h));
+            }
+        }
+    }
+    // F. RGB5A3: all 65 536 values (big-endian), per-seed order; RGBA8 copy; error paths
+    {
+        let mut vals: Vec<u16> = (0..=65535u16).collect();
+        rng.shuffle(&mut vals);
+        for chunk in vals.chunks(4096) {
+            let mut p = Vec::with_capacity(8192);
+            for v in chunk {
+                p.extend_from_slice(&v.to_be_bytes());
+            }
+            g.push(format!("cf RGB5A3 {}", hex(&p)));
+        }
+        g.push(format!("cf RGBA8 {}", hex(&rng.bytes(64))));
+        g.push("cf RGBA8 -".to_string());
+        g.push("cf RGB5A3 -".to_string());
+        g.push(format!("cf RGBA8 {}", hex(&rng.bytes(7))));
+        g.push(format!("cf RGB5A3 {}", hex(&rng.bytes(5))));
+        g.push(format!("cf CI8 {}", hex(&rng.bytes(4))));
+        g.push(format!("cf Unrecognized {}", hex(&rng.bytes(4))));
+    }
+    // G. CI8 (8×4 blocks) with crop: sizes 1…64
+    let mut sizes: Vec<(u32, u32)> = vec![(1, 1), (8, 4), (9, 5), (7, 3), (16, 8), (17, 9), (64, 64), (63, 61), (1, 64), (64, 1), (33, 2), (8, 8), (24, 12)];
+    let extra = if thorough { 300 } else { 40 };
+    for _ in 0..extra {
+        sizes.push((rng.range(1, 64) as u32, rng.range(1, 64) as u32));
+    }
+    if thorough {
+        for w in 1..=64 {
+            for h in 1..=64 {
+                if (w + h) % 5 == 0 {
+                    sizes.push((w, h));
+                }
+            }
+        }
+    } else {
+        for w in 1..=17 {
+            for h in 1..=9 {
+                sizes.push((w, h));
+            }
+        }
+    }
+    for (w, h) in sizes {
+        let entries = *rng.pick(&[1usize, 2, 7, 16, 256]);
+        let aw = (w as usize + 7) / 8 * 8;
+        let ah = (h as usize + 3) / 4 * 4;
+        let image: Vec<u8> = (0..aw * ah).map(|_| rng.below(entries as u64) as u8).collect();
+        g.push(format!("ci8 {} {} {} {}", w, h, hex(&rng.bytes(entries * 2)), hex(&image)));
+    }
+    // out-of-range palette index (visible / only in the padding), direct decode_indexed
+    {
+        let mut image = vec![0u8; 32];
+        image[3] = 5;
+        g.push(format!("ci8 8 4 {} {}", hex(&rng.bytes(8)), hex(&image)));
+        let mut image = vec![0u8; 32];
+        image[7] = 200;
+        g.push(format!("ci8 5 3 {} {}", hex(&rng.bytes(8)), hex(&image)));
+        g.push(format!("cfi CI8 {} {}", hex(&[0, 1, 2, 1]), hex(&rng.bytes(12))));
+        g.push(format!("cfi CI8 {} {}", hex(&[0, 3]), hex(&rng.bytes(12))));
+        g.push(format!("cfi CI8 {} {}", hex(&[0, 1]), hex(&rng.bytes(7))));
+        g.push(format!("cfi RGBA8 {} {}", hex(&[0, 1]), hex(&rng.bytes(8))));
+        g.push(format!("cfi Unrecognized {} {}", hex(&[0, 1]), hex(&rng.bytes(8))));
+        g.push(format!("cfi CI8 - {}", hex(&rng.bytes(8))));
+    }
+    g.lines
+}
+
+fn cf_of(s: &str) -> ColorFormat {
+    match s {
+        "RGBA8" => ColorFormat::RGBA8,
+        "RGB5A3" => ColorFormat::RGB5A3,
+        "CI8" => ColorFormat::CI8,
+        _ => ColorFormat::Unrecognized,
+    }
+}
+
+fn decode_result(r: Result<Result<Vec<u8>, TextureDecodeError>, String>) -> String {
+    match r {
+        Err(_) => "panic".to_string(),
+        Ok(Err(e)) => format!("err {}", texc::decode_err_class(&e)),
+        Ok(Ok(b)) => format!("ok {}", hex(&b)),
+    }
+}
+
+fn single_texture(r: Result<Result<Vec<Texture>, TextureParseError>, String>, w: u32, h: u32) -> String {
+    match r {
+        Err(_) => "panic".to_string(),
+        Ok(Err(e)) => format!("err {}", texc::parse_err_class(&e)),
+        Ok(Ok(ts)) => {
+            if ts.len() == 1 && ts[0].width == w as usize && ts[0].height == h as usize {
+                format!("ok {}", hex(&ts[0].pixel_data))
+            } else {
+                format!("ok-but {} textures", ts.len())
+            }
+        }
+    }
+}
+
+fn class(r: Result<Result<Vec<Texture>, TextureParseError>, String>) -> String {
+    match r {
+        Err(_) => "panic".to_string(),
+        Ok(Err(e)) => format!("err.{}", texc::parse_err_class(&e)),
+        Ok(Ok(_)) => "ok".to_string(),
+    }
 }
 
 pub fn run_line(_st: &mut super::State, line: &str) -> String {
-    let id = line.split(' ').next().unwrap_or("?");
-    format!("{} unimplemented", id)
+    let f: Vec<&str> = line.split(' ').collect();
+    let id = f[0];
+    let out = match f[1] {
+        "px" => {
+            let (fmt, w, h) = (f[2].parse::<u32>().unwrap(), f[3].parse::<u32>().unwrap(), f[4].parse::<u32>().unwrap());
+            let file = single_ctpk(fmt, w, h, &unhex(f[5]));
+            single_texture(no_panic(|| ctpk::read(&file)), w, h)
+        }
+        "etc" => {
+            let (w, h) = (f[3].parse::<usize>().unwrap(), f[4].parse::<usize>().unwrap());
+            let data = unhex(f[5]);
+            decode_result(no_panic(|| mila::decode(&data, w, h, f[2] == "1")))
+        }
+        "cf" => {
+            let data = unhex(f[3]);
+            decode_result(no_panic(|| cf_of(f[2]).decode(&data)))
+        }
+        "cfi" => {
+            let data = unhex(f[3]);
+            let pal = unhex(f[4]);
+            decode_result(no_panic(|| cf_of(f[2]).decode_indexed(&data, &pal)))
+        }
+        "ci8" => {
+            let (w, h) = (f[2].parse::<u32>().unwrap(), f[3].parse::<u32>().unwrap());
+            let t = texc::Tex { name: String::new(), w, h, fmt: 9, payload: unhex(f[5]), palette: unhex(f[4]) };
+            let mut rng = Rng::new(0);
+            let b = texc::build_tpl(&[t], &mut rng, false);
+            single_texture(no_panic(|| tpl::Tpl::extract_textures(&b.file)), w, h)
+        }
+        "probe" => {
+            let (fmt, w, h) = (f[2].parse::<u32>().unwrap(), f[3].parse::<u32>().unwrap(), f[4].parse::<u32>().unwrap());
+            let n = need(fmt, w, h);
+            let file = single_ctpk(fmt, w, h, &vec![0u8; n]);
+            let a = class(no_panic(|| ctpk::read(&file)));
+            let b = if n == 0 { "-".to_string() } else { class(no_panic(|| ctpk::read(&file[..file.len() - 1]))) };
+            format!("{} {}", a, b)
+        }
+        _ => "bad-case".to_string(),
+    };
+    format!("{} {} {}", id, PROFILE, out)
 }
